@@ -20,12 +20,15 @@ from harness.c05 import parse_action
 
 SPEC = os.path.join(tlc.SPEC_DIR, 'WmsVersion.tla')
 # 0 = no VERSION parameter; numbered in ascending order
-VERSIONS = {1: '0.9.0', 2: '1.0.0', 3: '1.0.5', 4: '1.1.0', 5: '1.1.1', 6: '1.2.0', 7: '1.3.0', 8: '2.0.0'}
+# (with components of two digits: versions are compared number by number, 1.10.0 lies above 1.3.0 and 1.1.10 above 1.1.1;
+# their strings look like those of configured versions when zeros or dots are dropped)
+VERSIONS = {1: '0.9.0', 2: '1.0.0', 3: '1.0.5', 4: '1.1.0', 5: '1.1.1', 6: '1.1.10', 7: '1.2.0', 8: '1.3.0', 9: '1.10.0', 10: '1.30.0',
+            11: '2.0.0', 12: '10.0.0'}
 NUM = {v: k for k, v in VERSIONS.items()}
-KNOWN = {2, 4, 5, 7}
-MAXV = 8
+KNOWN = {2, 4, 5, 8}
+MAXV = 12
 ERROR = MAXV + 1
-CONFIGS = [{2, 5, 7}, {5, 7}, {4, 5}, {7}, {2, 4, 5, 7}, {2, 7}]
+CONFIGS = [{2, 5, 8}, {5, 8}, {4, 5}, {8}, {2, 4, 5, 8}, {2, 8}]
 
 
 class World(object):
@@ -80,11 +83,11 @@ def replay_behaviour(beh, configured):
 
 
 def detect_variant():
-    w = World({2, 5, 7})
+    w = World({2, 5, 8})
     try:
-        w.request(6)
-        ev = w.request(7)
-        return ('asfound' if ev['ans'] != 7 else 'repaired'), ev
+        w.request(7)
+        ev = w.request(8)
+        return ('asfound' if ev['ans'] != 8 else 'repaired'), ev
     finally:
         w.close()
 
@@ -95,7 +98,7 @@ def run(ctx):
     variant, ev = detect_variant()
     ctx.log('the tree implements Variant=%s (versions 1.0.0, 1.1.1, 1.3.0 configured: after a request for 1.2.0 a request for 1.3.0 is answered with %s)' % (
         variant, VERSIONS.get(ev['ans'], 'an error')))
-    cfg = {2, 5, 7}
+    cfg = {2, 5, 8}
     d = ctx.sub('mc-asfound')
     mp, cp = tlc.write_mc(d, 'WmsVersion', 'MC_V', consts(cfg, 'asfound'), properties=['Stateless'])
     r = tlc.run(mp, cp, d, timeout=600, coverage=False, workers=2)
@@ -177,7 +180,7 @@ def run(ctx):
                 ctx.violation({'kind': 'trace-rejected'}, 'configured %s: recorded sequence is not a behaviour of WmsVersion.tla at request %d: %s' % (
                     [VERSIONS[x] for x in sorted(cfg)], matched[k] + 1, json.dumps(t[:matched[k] + 1])), {'configured': sorted(cfg), 'trace': t[:matched[k] + 1]})
     ctx.assumptions += ['GetCapabilities requests (every WMS request type goes through the same negotiation); six configured version sets; '
-                        'requested versions: none, 0.9.0, 1.0.0, 1.0.5, 1.1.0, 1.1.1, 1.2.0, 1.3.0, 2.0.0']
+                        'requested versions: none, 0.9.0, 1.0.0, 1.0.5, 1.1.0, 1.1.1, 1.1.10, 1.2.0, 1.3.0, 1.10.0, 1.30.0, 2.0.0, 10.0.0']
     return ctx.finish('model_checking', 'TLC: all request sequences for six configured version sets; behaviours executed on and sequences '
                       'recorded from a real application')
 
